@@ -150,13 +150,7 @@ func buildC10Pool(env *Env, r *Rand, n int) ([]poolProg, [][]int) {
 	// while the worker hands the bytes to the parser as they are: only for pure ASCII text do both see the same
 	// program, so the pool is kept ASCII (non-ASCII sources through the CLI are C19's subject).
 	add := func(kind, src string) {
-		b := []byte(src)
-		for i := range b {
-			if b[i] >= 0x80 {
-				b[i] = 'x'
-			}
-		}
-		pool = append(pool, poolProg{Src: b, Kind: kind})
+		pool = append(pool, poolProg{Src: []byte(asciiOnly(src)), Kind: kind})
 	}
 	var sib [][]int
 	for gi, grp := range siblingGroups(r) {
@@ -372,3 +366,14 @@ func (c *FreshCase) Judge(rs []Res, env *Env) Outcome {
 }
 
 func init() { registerKind("fresh", func() Case { return &FreshCase{} }) }
+
+// asciiOnly replaces every byte above 0x7f by 'x'.
+func asciiOnly(src string) string {
+	b := []byte(src)
+	for i := range b {
+		if b[i] >= 0x80 {
+			b[i] = 'x'
+		}
+	}
+	return string(b)
+}
